@@ -62,6 +62,13 @@ class StmtMixin:
     def exec_Pass(self, st, s):
         return [st]
 
+    def exec_FunctionDef(self, st, s):
+        # a nested function: a closure over the enclosing locals (read at call time)
+        if s.decorator_list or s.args.vararg or s.args.kwarg or s.args.kwonlyargs:
+            raise OutsideSubset('nested function with decorators / star arguments')
+        st.env[s.name] = Entity('localfunc', s)
+        return [st]
+
     def exec_Expr(self, st, s):
         if isinstance(s.value, ast.Constant):
             return [st]      # docstring
@@ -166,8 +173,10 @@ class StmtMixin:
                         if pl is not None and len(pl) == 1 and isinstance(pl[0][1], Place):
                             cur.env[s.value.id] = pl[0][1]
                         else:
-                            raise OutsideSubset('a local container stored into %s stays aliased by the local %s'
-                                                % (ast.unparse(s.targets[0]), s.value.id))
+                            # no borrow possible (e.g. the slot holds a shared heap container): the
+                            # local must not be used again - any later use is outside the subset
+                            cur.env[s.value.id] = Entity('moved', 'local container %s after it was stored into %s'
+                                                         % (s.value.id, ast.unparse(s.targets[0])))
             out.extend(states)
         return out
 
